@@ -138,10 +138,13 @@ def live(ctx, p):
         return
     with warnings.catch_warnings():
         warnings.simplefilter("ignore")
-        if cls == "H":
-            _check_H(ctx, net, held)
-        else:
-            _check_D(ctx, net, held)
+        try:
+            if cls == "H":
+                _check_H(ctx, net, held)
+            else:
+                _check_D(ctx, net, held)
+        except Exception as ex:
+            ctx.require(False, f"a view or statistic held across the edit raised {type(ex).__name__}")
 
 
 # ---------------------------------------------------------------------------
